@@ -7,7 +7,7 @@ import ShVerif.Proofs.C31
 
   Part A: the logical part on the skeleton model: once the context is cancelled no further atomic
           command starts, every program (infinite loops included) ends, and the work still done is
-          bounded by the remaining word-list `for` items.  For every program, every oracle and every
+          bounded by the size of the program, however many iterations its loops have left.  For every program, every oracle and every
           cancellation schedule (after any number of model steps, or while any atom runs).
   Part B: obligations about the tables regenerated from /repo/interp on every run: every blocking
           operation of the package is classified, the unreleased ones are exactly the known
@@ -38,10 +38,12 @@ theorem cancel_is_recorded (e : Env) (f : Nat) (sk : Sk) (st st' : St)
   ⟨hd.2, hd.1⟩
 
 /-- Bounded unwind: for every program, oracle and schedule — cancellation may strike anywhere in
-    the run — the number of model steps taken while the context is cancelled is at most `unwind sk`:
-    the items of the word-list `for` loops (which do not check `stop()` themselves and walk through
-    what is left) times their body size, plus one step per enclosing construct; `while`, `until` and
-    C-style loops contribute a constant however long they would have run. -/
+    the run — the number of model steps taken while the context is cancelled is at most `unwind sk`,
+    which no longer depends on how many iterations any loop has left: every loop contributes its
+    body once plus a constant (`while`/`until` leave at the loop head, the word-list `for` at the
+    top of its next iteration since 7ead8d8, the C-style `for` through `!r.exit.ok()`), plus one
+    step per enclosing construct.  (Before 7ead8d8 the bound had the term Σ remaining word-list
+    items × body: the loop walked through everything that was left.) -/
 theorem bounded_unwind (e : Env) (f : Nat) (sk : Sk) (st st' : St)
     (hw : wf sk = true) (h : exec e f sk st = some st') :
     st'.after ≤ st.after + unwind sk :=
@@ -60,7 +62,7 @@ theorem user_programs_wf (sk : Sk) (h : userLevel sk = true) : wf sk = true :=
   (userLevel_wf sk h).1
 
 /-! non-vacuity: an infinite loop runs out of any fuel we try, is stopped by cancellation, and a
-    word-list `for` walks through its remaining items after cancellation -/
+    word-list `for` stops at the top of its next iteration -/
 
 def spin : Sk := .whileL false (.atom 1) (.atom 2)
 def never : Env := { cancelAt := 1000000, cancelAtom := 1000000, oracle := fun _ => true }
@@ -69,8 +71,9 @@ def atThird : Env := { never with cancelAtom := 3 }
 example : exec never 200 spin St.init = none := by decide +kernel
 example : (exec atThird 200 spin St.init).map (·.log.reverse) = some [1, 2, 1] := by decide +kernel
 example : (exec atThird 200 (.forW 5 (.atom 7)) St.init).map (fun s => (s.log.reverse, s.items, s.after))
-    = some ([7, 7, 7], 5, 5) := by decide +kernel
-example : userLevel spin = true ∧ unwind (.forW 5 (.atom 7)) = 11 := by decide
+    = some ([7, 7, 7], 3, 2) := by decide +kernel
+/-- the bound does not grow with the number of items -/
+example : userLevel spin = true ∧ unwind (.forW 5 (.atom 7)) = 4 ∧ unwind (.forW 100000 (.atom 7)) = 4 := by decide
 
 /-! ### Part B — regenerated tables -/
 
@@ -100,8 +103,8 @@ theorem wait_for_graph :
       ∧ (stuck expected peers).contains "bgjob" = true := by
   decide +kernel
 
-/-- `Runner.stop` is consulted exactly where the skeleton model puts its checks (stmt, cmd entry
-    and while-loop head, call), and the context is looked at only by `stop`, `readLine`'s AfterFunc
+/-- `Runner.stop` is consulted exactly where the skeleton model puts its checks (stmt, cmd entry,
+    while-loop head and word-list `for` iteration, call), and the context is looked at only by `stop`, `readLine`'s AfterFunc
     and the exec handler. -/
 theorem stop_sites :
     (ShVerif.Gen.C31.ctxUses.filter fun x => x.2.1 = "stop-call") = stopCalls
